@@ -49,6 +49,9 @@ MANIFEST = {
                 "for loop and the right recursion as a loop; gen_sort_comparator: the translated sort terminates, follows no null pointer, writes no "
                 "link and leaves sortVals lt of the values); "
                 "Array::append(const Array&) with another array and with the array itself as argument (gen_append_array, gen_append_array_self); "
+                "the copy constructor and operator= of Array (gen_copy_ctor = copyFrom {} o; gen_assign_self; gen_assign_body + copyBody_sim: operator= is "
+                "clear() followed by the common copy part, which equals copyFrom - the composition through clear() is not a theorem); for the do-while "
+                "spelling of the pinned header (flag set by the translator) the translated sort equals qsortG fault for fault (gen_sort_exact); "
                 "List::insert(position, list) with the list itself and List::clear for every heap (gen_list_insert_self, gen_list_clear, "
                 "gen_self_insert_every_position; the insert(pos, value) calls inside the loop are the model step Ptr.insert).  The guard and capacity "
                 "rounding of Array::reserve are measured, not translated: every row the probe printed on the current headers is generated into "
